@@ -334,6 +334,11 @@ def _is_convex(P2):
     return len(sg) <= 1
 
 
+def warmup():
+    """Import porepy before the clock starts (on a loaded machine the import alone can exceed the quick budget)."""
+    import porepy  # noqa: F401
+
+
 # ----------------------------------------------------------------------------- check
 def check(s):
     from porepy.geometry import distances as dist
